@@ -52,7 +52,7 @@ def handlers : List (String × Handler) :=
   |>.cons ("c12e2e", C12.handle) |>.cons ("c12dir", C12.handle) |>.cons ("c12", C12.handlePure)
   |>.cons ("c13lex", C13.handleLex)
   |>.cons ("c13inc", C13.handleInc)
-  |>.cons ("c18", C18.handle) |>.cons ("c18e2e", C18.handleE2E)
+  |>.cons ("c18", C18.handle) |>.cons ("c18e2e", C18.handleE2E) |>.cons ("c18fea", C18.handleFea) |>.cons ("c18feax", C18.handleFea)
   |>.cons ("c11", C11.handle)
   |>.cons ("c11x", C11.handle)
   |>.cons ("c11adv", C11.handle)
